@@ -278,7 +278,7 @@ func ruleC01Cap(cx *Ctx) {
 				if f := fieldOf(st.Addr); f != nil {
 					tn := structNameOfAddr(st.Addr)
 					if tn == "Config" {
-						cfg[fname(f)] = newTermBuilder().of(st.Val).String()
+						cfg[fname(f)] = newInliningTermBuilder().of(st.Val).String()
 					}
 					if tn == "cache" && flagNames[fname(f)] {
 						stores[fname(f)] = st.Val
@@ -286,11 +286,26 @@ func ruleC01Cap(cx *Ctx) {
 				}
 			}
 		})
+		// the features handed to the node manager: the Config value as a term (the literal may be built by helpers)
+		allInstrs(nc, func(in ssa.Instruction) {
+			c, isC := in.(*ssa.Call)
+			if !isC || c.Call.StaticCallee() == nil || origin(c.Call.StaticCallee()).Name() != "NewManager" || len(c.Call.Args) != 1 {
+				return
+			}
+			t := newInliningTermBuilder().of(c.Call.Args[0])
+			st, _ := c.Call.Args[0].Type().Underlying().(*types.Struct)
+			if st == nil || !strings.HasPrefix(t.Op, "struct:") || len(t.Args) != st.NumFields() {
+				return
+			}
+			for i := 0; i < st.NumFields(); i++ {
+				cfg[st.Field(i).Name()] = t.Args[i].String()
+			}
+		})
 		pairs := [][2]string{{"WithExpiration", "withExpiration"}, {"WithRefresh", "withRefresh"}, {"WithWeight", "isWeighted"}}
 		for _, p := range pairs {
 			got := ""
 			if v, ok := stores[p[1]]; ok {
-				got = newTermBuilder().of(v).String()
+				got = newInliningTermBuilder().of(v).String()
 			}
 			cx.R.Check(cfg[p[0]] != "" && cfg[p[0]] == got, rule, funcName(nc), "flag "+p[1]+" = Config."+p[0], cx.P.Pos(nc.Pos()), "the cache flag and the node feature are computed from the same option ("+cfg[p[0]]+" vs "+got+")")
 		}
